@@ -1,6 +1,7 @@
 package world
 
 import (
+	"strings"
 	"sort"
 	"math/rand/v2"
 )
@@ -128,6 +129,12 @@ func (g *gen) handlerPlan(hangP, errP float64) *HandlerPlan {
 		p.Reply = "err"
 		p.Code = 1 + g.r.IntN(16)
 		p.Msg = "planned-" + pick(g.r, "a", "b", "c") + "-" + string(rune('0'+g.r.IntN(10)))
+		switch g.r.IntN(8) {
+		case 0: // a long text: the encoded metadata no longer fits what a short one does
+			p.Msg += "-" + strings.Repeat("long status text ", 6+g.r.IntN(30))
+		case 1: // text that needs escaping / is not ASCII
+			p.Msg += " \"quoted\" \\ tab\there, ünïcødé ✓"
+		}
 	}
 	return p
 }
